@@ -86,7 +86,7 @@ def run(ctx):
                     continue      # non-uniform weights: documented NotImplementedError for norm='L1'
                 tid += 1
                 hist = lifecycle.History(tid, "C02 " + entry.name, "bad-data history" + (" weighted" if weighted else ""))
-                scenario(hist, entry, rng, weighted, (tid + rep) % 2 if thorough else tid % 2)
+                scenario(hist, entry, rng, weighted, rep % 2)
                 ctx.case((entry.name, rep, weighted), sample=dict(kind="history", cls=entry.name,
                                                                   events=[(e["a"], e.get("kind", ""), e.get("outcome", "")) for e in hist.t["ev"][:8]]))
                 traces.append(hist.t)
